@@ -15,7 +15,7 @@ import sys
 
 ID = "C02"
 RULE = ("histories on a fresh Directory volume: (a) exhaustive: PUT of sizes {0, 1, small, >2^18} x pre-state "
-        "{absent, intact copy, corrupt copy} x {run, SIGKILL at every verifPoint reached, context cancelled at every "
+        "{absent, intact copy, stored by an acknowledged PUT, corrupt copy} x {run, SIGKILL at every verifPoint reached, context cancelled at every "
         "verifPoint reached}; (b) WriteBlock with a scripted reader: SIGKILL after every chunk, reader error after every "
         "chunk, write failure at a byte limit (RLIMIT_FSIZE), each also killed inside the error path; (c) random histories "
         "of seed/tick/put/wb/touch/del/untrash/empty ops with kill points. A case is non-trivial when at least one op is "
@@ -39,7 +39,7 @@ DRIVERS = {
 
 INSTRUMENT = "/verif/build/instrument"
 MATCH = "os.,ioutil.,syscall.,io.Copy,v.os.,v.lockfile,v.unlockfile,tmpfile.Close"
-FUNCS = "WriteBlock,Touch,Trash,Untrash,EmptyTrash"
+FUNCS = "WriteBlock,Touch,Trash,Untrash,EmptyTrash,Compare,getFunc,stat"
 _points_line = [None]
 
 
@@ -107,23 +107,52 @@ def _spec(rng, kind):
 
 # ------------------------------------------------------------------------------------- generator
 
-PUT_POINTS = {"absent": 6, "corrupt": 6, "intact": 4}
+# verifPoints of an uninterrupted PUT: (Compare: stat [+ getFunc open, read], then Touch 4 / WriteBlock 6)
+PUT_POINTS = {"absent": (1, 6), "corrupt": (3, 6), "intact": (3, 4), "stored": (3, 4)}
 
 
-def _put_enumeration(rng, kinds):
+def _chunks(size, chunk):
+    return (size + chunk - 1) // chunk
+
+
+def _put_family(rng, kind, pre, exhaustive):
+    """PUT of one body with one pre-state: run, kill at points, cancel at points, cancel in the
+    middle of the copy from the pipe. exhaustive: every point; else a stratified sample (at least
+    one kill and one cancel in the Compare phase and one each in the Touch/WriteBlock phase)."""
+    b = _spec(rng, kind)
+    size = int(b.split(".")[0])
+    head = {"absent": "", "intact": f"seed:{b}:intact;", "corrupt": f"seed:{b}:corrupt;",
+            "stored": f"put:{b}:run;"}[pre]
+    ncmp, nrest = PUT_POINTS[pre]
+    n = ncmp + nrest
+    writes = pre in ("absent", "corrupt")
+    if exhaustive:
+        ks, cs = list(range(n)), list(range(n))
+    else:
+        ks = [rng.randrange(ncmp), rng.randrange(ncmp, n)]
+        cs = [rng.randrange(ncmp), rng.randrange(ncmp, n)]
+        if writes and size > 0:
+            cs.append(rng.randrange(ncmp, ncmp + 3))  # cancelled before the copy started
+    modes = ["run"] + [f"k{i}" for i in sorted(set(ks))] + [f"c{i}" for i in sorted(set(cs))]
+    if writes and size > 0:
+        chunk = min(32768, max(1, rng.choice([1, 7, 4096, 32768, (size + 3) // 4])))
+        chunk = max(chunk, (size + 11) // 12)  # at most 12 chunks
+        chunk = min(chunk, 32768)
+        nch = _chunks(size, chunk)
+        js = list(range(nch + 2)) if exhaustive else sorted({rng.randrange(nch + 1), rng.randrange(nch + 1)})
+        modes += [f"m{j}x{chunk}" for j in js]
+    return [f"hist {head}put:{b}:{m}" for m in modes]
+
+
+def _put_enumeration(rng, kinds, exhaustive):
     cases = []
     for kind in kinds:
-        for pre in ("absent", "intact", "corrupt"):
-            b = _spec(rng, kind)
-            head = "" if pre == "absent" else f"seed:{b}:{pre};"
-            npts = PUT_POINTS[pre]
-            modes = ["run"] + [f"k{i}" for i in range(npts + 1)] + [f"c{i}" for i in range(npts + 1)]
-            for m in modes:
-                cases.append(f"hist {head}put:{b}:{m}")
+        for pre in ("absent", "intact", "stored", "corrupt"):
+            cases += _put_family(rng, kind, pre, exhaustive)
     return cases
 
 
-def _wb_enumeration(rng, big_kinds):
+def _wb_enumeration(rng, big_kinds, exhaustive):
     cases = []
     plans = [("small", lambda r: r.choice([1, 2, 3, 7]))] + [(k, lambda r: r.choice([32768, 32768, 20000, 4096 * r.randint(1, 8)])) for k in big_kinds]
     for kind, chunk_of in plans:
@@ -133,17 +162,18 @@ def _wb_enumeration(rng, big_kinds):
             size = min(size, 12)
             b = f"{size}.{b.split('.')[1]}"
         chunk = min(chunk_of(rng), 32768)
-        n = (size + chunk - 1) // chunk
+        n = _chunks(size, chunk)
         pre = rng.choice(["", f"seed:{b}:intact;", f"seed:{b}:corrupt;"])
-        for j in range(n + 2):
+        pick = (lambda xs, k: xs) if exhaustive else (lambda xs, k: rng.sample(xs, min(k, len(xs))))
+        for j in pick(list(range(n + 2)), 3):
             cases.append(f"hist {pre}wb:{b}:{chunk}:x{j}:0:run")
-        for j in range(n + 1):
+        for j in pick(list(range(n + 1)), 2):
             cases.append(f"hist {pre}wb:{b}:{chunk}:e{j}:0:{rng.choice(['run', 'run', 'k3', 'k4'])}")
-        for i in range(7):
+        for i in pick(list(range(7)), 2):
             cases.append(f"hist {pre}wb:{b}:{chunk}:eof:0:k{i}")
-        for _ in range(4):
+        for _ in range(4 if exhaustive else 1):
             limit = rng.choice([1, max(1, size // 2), max(1, size - 1), size, size + 1, chunk, 2 * chunk, rng.randint(1, size + 1)])
-            for m in ("run", "k3", "k4"):
+            for m in pick(["run", "k3", "k4"], 2):
                 cases.append(f"hist {pre}wb:{b}:{chunk}:eof:{limit}:{m}")
             cases.append(f"hist {pre}wb:{b}:{chunk}:x{rng.randint(0, n)}:{limit}:run")
             cases.append(f"hist {pre}wb:{b}:{chunk}:e{rng.randint(0, n)}:{limit}:{rng.choice(['run', 'k3', 'k4'])}")
@@ -180,7 +210,12 @@ def _random_history(rng, tier):
         r = rng.random()
         last = k == n - 1
         if r < 0.25:
-            m = _mode(rng, 6, cancel=True)
+            m = _mode(rng, 9, cancel=True)
+            if size > 0 and rng.random() < 0.15:
+                chunk = min(32768, max(1, (size + 5) // 6, rng.choice([1, 4096, 32768])))
+                nch = _chunks(size, chunk)
+                j = rng.randint(0, nch if last else nch - 1)
+                m = f"m{j}x{chunk}"
             if m.startswith("c") and size == 0 and not last:
                 m = "run"
             ops.append(f"put:{b}:{m}")
@@ -212,15 +247,16 @@ def generate(rng, tier):
     if _points_line[0]:
         cases.append(_points_line[0])
     if tier == "quick":
-        cases += _put_enumeration(rng, ["zero", "one", "small", "big"])
-        cases += _wb_enumeration(rng, ["big"])
-        cases += [_random_history(rng, tier) for _ in range(70)]
+        # sampled kill / cancel points (stratified); the thorough tier enumerates every point
+        cases += _put_enumeration(rng, ["zero", "one", "small", "big"], False)
+        cases += _wb_enumeration(rng, ["big"], False)
+        cases += [_random_history(rng, tier) for _ in range(45)]
     else:
+        cases += _put_enumeration(rng, ["zero", "one", "small", "small", "mid", "big"], True)
+        cases += _put_enumeration(rng, ["small", "big"], True)
         for _ in range(2):
-            cases += _put_enumeration(rng, ["zero", "one", "small", "small", "mid", "big"])
-        for _ in range(2):
-            cases += _wb_enumeration(rng, ["mid", "big"])
-        cases += [_random_history(rng, tier) for _ in range(450)]
+            cases += _wb_enumeration(rng, ["mid", "big"], True)
+        cases += [_random_history(rng, tier) for _ in range(400)]
     return cases
 
 
@@ -403,7 +439,7 @@ def neighbours(case, rng):
         for o in ops:
             g = o.split(":")
             if g[0] not in ("tick", "seed") and rng.random() < 0.6:
-                g[-1] = rng.choice(["run"] + [f"k{i}" for i in range(7)] + ([f"c{i}" for i in range(7)] if g[0] == "put" else []))
+                g[-1] = rng.choice(["run"] + [f"k{i}" for i in range(10)] + ([f"c{i}" for i in range(10)] + [f"m{j}x{c}" for j in range(3) for c in (1, 4096)] if g[0] == "put" else []))
             if g[0] == "wb" and rng.random() < 0.4:
                 size = int(g[1].split(".")[0])
                 chunk = int(g[2])
@@ -416,14 +452,18 @@ def neighbours(case, rng):
             g = o.split(":")
             if g[0] == "put" and g[-1].startswith("c") and g[1].startswith("0.") and i != len(new) - 1:
                 ok = False
+            if g[0] == "put" and g[-1].startswith("m") and i != len(new) - 1:
+                size, (j, c) = int(g[1].split(".")[0]), (int(x) for x in g[-1][1:].split("x"))
+                if size == 0 or j == _chunks(size, c):
+                    ok = False
         if ok:
             out.append("hist " + ";".join(new))
     # also the plain single-op enumerations for the bodies of this case
     for o in ops:
         g = o.split(":")
         if g[0] == "put":
-            for pre in ("", f"seed:{g[1]}:intact;", f"seed:{g[1]}:corrupt;"):
-                for m in ["run"] + [f"k{i}" for i in range(7)] + [f"c{i}" for i in range(7)]:
+            for pre in ("", f"seed:{g[1]}:intact;", f"put:{g[1]}:run;", f"seed:{g[1]}:corrupt;"):
+                for m in ["run"] + [f"k{i}" for i in range(10)] + [f"c{i}" for i in range(10)]:
                     out.append(f"hist {pre}put:{g[1]}:{m}")
             break
     return out
